@@ -694,6 +694,8 @@ pub enum VEv {
     PingRound,
     /// longer than the vote duration passes
     Expire,
+    /// a peer that is not a voter establishes an incoming session (what a connectivity test waits for)
+    Incoming,
 }
 
 #[derive(Clone, Debug)]
@@ -859,6 +861,12 @@ async fn run_c17_async(cfg: &VCfg, hist: &[VEv]) -> Outcome<VEv> {
                 rt::settle().await;
                 rt::settle().await;
             }
+            VEv::Incoming => {
+                let n = hist[..step].iter().filter(|e| matches!(e, VEv::Incoming)).count() as u16;
+                let enr = util::enr4(&util::key(70 + n), 1, util::v4(10, 8, 0, 1 + n as u8, 9000));
+                let addr: SocketAddr = enr.udp4_socket().unwrap().into();
+                node.inject(HandlerOut::Established(enr, addr, v::ConnectionDirection::Incoming)).await;
+            }
         }
         let _ = absorb(&mut node, &mut pings, &voters);
         let after = node.discv5.local_enr();
@@ -943,6 +951,9 @@ async fn run_c17_async(cfg: &VCfg, hist: &[VEv]) -> Outcome<VEv> {
             }
         }
         enabled.push(VEv::PingRound);
+        if cfg.autonat && hist.iter().filter(|e| matches!(e, VEv::Incoming)).count() < 2 {
+            enabled.push(VEv::Incoming);
+        }
         if !votes.is_empty() {
             enabled.push(VEv::Expire);
         }
@@ -987,8 +998,10 @@ pub fn run_c17() {
     // contested starting states: two addresses with 2:2 and 3:2 votes among five eligible voters
     cfgs.push(VCfg { dual: false, min: 2, voters: vec![0, 0, 0, 0, 0], addrs: 3, with_fail: false, burst: false, slow_ping: false, seed: vec![VEv::Pong(0, 0), VEv::Pong(1, 1), VEv::Pong(2, 0), VEv::Pong(3, 1)], autonat: false, resub: false });
     cfgs.push(VCfg { dual: false, min: 3, voters: vec![0, 0, 0, 0, 0], addrs: 3, with_fail: false, burst: false, slow_ping: false, seed: vec![VEv::Pong(0, 0), VEv::Pong(1, 1), VEv::Pong(2, 0), VEv::Pong(3, 1), VEv::Pong(4, 0), VEv::PingRound], autonat: false, resub: false });
-    // connectivity test enabled (its waiting time is never reached): votes cast while it waits count
-    cfgs.push(VCfg { dual: false, min: 2, voters: vec![0, 0, 0, 0], addrs: 3, with_fail: false, burst: false, slow_ping: false, seed: vec![VEv::Pong(0, 0), VEv::Pong(1, 0), VEv::Pong(2, 1), VEv::Pong(3, 1)], autonat: true, resub: false });
+    // connectivity test enabled (its waiting time is never reached): votes cast while it waits count,
+    // also after two incoming sessions have completed it
+    cfgs.push(VCfg { dual: false, min: 2, voters: vec![0, 0, 0, 0], addrs: 3, with_fail: false, burst: false, slow_ping: false, seed: vec![VEv::Pong(0, 0), VEv::Pong(1, 0), VEv::Pong(2, 1), VEv::Pong(3, 1), VEv::Incoming, VEv::Incoming], autonat: true, resub: false });
+    cfgs.push(VCfg { dual: false, min: 2, voters: vec![0, 0, 0], addrs: 2, with_fail: false, burst: false, slow_ping: false, seed: vec![], autonat: true, resub: false });
     // the application re-subscribed to the event stream
     cfgs.push(VCfg { dual: false, min: 2, voters: vec![0, 0, 0], addrs: 2, with_fail: false, burst: false, slow_ping: false, seed: vec![], autonat: false, resub: true });
     if thorough {
